@@ -386,10 +386,17 @@ def run(ctx, chk, tier="quick"):
                key="populate_water_level|labels", why="stretches separated by gaps must carry distinct labels starting from 1")
         # boundaries: [grid[0]] + pairs(zeta_t[gap], zeta_t[gap + 1]) + [grid[-1]]
         bnd_ok = False
+        ends_wrong = False
         bdesc = "boundary list not found"
         for n in ast.walk(wl.node):
             if isinstance(n, ast.Assign) and isinstance(n.value, ast.BinOp) and isinstance(n.value.op, ast.Add):
                 txt = ast.unparse(n.value).replace(" ", "")
+                import re as _re2
+                mm = _re2.match(r"^\[%s\[(-?\d+)\]\]\+.*\+\[%s\[(-?\d+)\]\]$" % (gridp, gridp), txt)
+                if mm and (mm.group(1), mm.group(2)) != ("0", "-1"):
+                    bdesc = ast.unparse(n.value)[:120]
+                    bnd_ok = False
+                    ends_wrong = True
                 if txt.startswith("[%s[0]]+" % gridp) and txt.endswith("+[%s[-1]]" % gridp):
                     bdesc = ast.unparse(n.value)[:120]
                     mid = n.value.left.right if isinstance(n.value.left, ast.BinOp) else None
